@@ -9,6 +9,7 @@ import (
 	"encoding/json"
 	"fmt"
 	"os"
+	"runtime"
 	"runtime/debug"
 	"sort"
 	"strings"
@@ -468,7 +469,7 @@ func handle(req Request) Response {
 					}
 					q := sql.InsertStatement{TableName: n, InsertColumnsAndSource: sql.InsertColumnsAndSource{
 						InsertColumnList: sql.InsertColumnList{ColumnNames: cs},
-						QueryExpression: sql.TableValueConstructor{TableValueConstructorList: []sql.RowValueConstructor{{RowValueConstructorList: vals}}}}}
+						QueryExpression:  sql.TableValueConstructor{TableValueConstructorList: []sql.RowValueConstructor{{RowValueConstructorList: vals}}}}}
 					r := guarded(func() Res {
 						if _, err := engine.EvaluateInsert(q, sess.RelationService); err != nil {
 							return Res{Err: true, Msg: err.Error()}
@@ -489,6 +490,32 @@ func handle(req Request) Response {
 		if req.BadU {
 			runStmt(sess, "USE no_such_database")
 		}
+	}
+	if req.Stmt {
+		// the 100 ms flusher, at its worst: while the statements run, another goroutine asks for the flush (and with it for
+		// the store's exclusive lock) over and over, so that a request is pending at every point of every statement
+		stop := make(chan struct{})
+		done := make(chan struct{})
+		go func() {
+			defer close(done)
+			defer func() { recover() }()
+			for {
+				select {
+				case <-stop:
+					return
+				default:
+					storage.VerifTickAll() // errors (a store closed under it by USE) are the flusher's own business
+					runtime.Gosched()
+				}
+			}
+		}()
+		defer func() {
+			close(stop)
+			select {
+			case <-done:
+			case <-time.After(2 * time.Second): // stuck behind a lock that a hanging statement holds
+			}
+		}()
 	}
 	for _, q := range req.Qs {
 		text := q.Raw
